@@ -56,6 +56,7 @@ ASSETS = {
 BASE_MEDIA_JS = ("base.js",)
 NAMES = [("Plain", "Other"), ("with_underscore9", "Plain"), ("Größe", "Plain"), ("Plain", "名前"), ("Same", "Same"),
          ("Größe", "Grüße"), ("按钮", "表格")]  # related names: equal length, differing only in non-ASCII letters
+SAME_MODULE = {("Größe", "Grüße"), ("按钮", "表格")}  # these pairs live in ONE module (import paths differ in the class name only)
 COMBOS_A = [(3, 0), (0, 3), (1, 2), (3, 4), (4, 3), (1, 1), (3, 5), (5, 4), (6, 3), (7, 2)]
 WRAPPERS = ("none", "html", "placeholders", "html+css_placeholder", "html+js_placeholder")
 
@@ -104,10 +105,10 @@ def build_classes(prog, combo, names):
         spec_id = combo[i] if i < len(combo) else 0
         a = ASSETS[spec_id]
         js, css, _, _ = class_assets(letter, spec_id)
-        attrs = {"template": prog.comps[letter].source(), "__module__": "verif_c04_m%d" % i}
+        attrs = {"template": prog.comps[letter].source(), "__module__": "verif_c04_m%d" % (0 if tuple(names[:2]) in SAME_MODULE else i)}
         if js:
             attrs["js"] = js
-        if css:
+        if css and not a.get("inline_parent"):  # spec 7: the css is the PARENT's, the class itself defines js only
             attrs["css"] = css
         if a["mjs"] or a["mcss"]:
             m = {}
